@@ -159,7 +159,12 @@ func c06inputs(c *Ctx) []c06input {
 			hz = append(hz, refcbor.NArr(refcbor.NInt(a), refcbor.NBstr(r.Bytes(32))), refcbor.NArr(refcbor.NInt(a), refcbor.NBstr([]byte{})), refcbor.NArr(refcbor.NInt(a)))
 		}
 		hz = append(hz, refcbor.NArr(refcbor.NTstr("sha-256"), refcbor.NBstr(r.Bytes(32))), refcbor.NArr(refcbor.NBstr(r.Bytes(10)), refcbor.NBstr(r.Bytes(10))), refcbor.NArr(refcbor.NArr(), refcbor.NArr()))
-		labels := []int64{258, 259, 260, 256, 257, 261, -1, -65537}
+		// (maps keyed by small negative integers holding byte strings, lists of them, nested maps: the shapes
+		//  of verifiable-data-structure proofs and similar registered parameters)
+		for _, kk := range []int64{-1, -2, 1, 2} {
+			hz = append(hz, refcbor.NMap(refcbor.NInt(kk), refcbor.NBstr([]byte{0})), refcbor.NMap(refcbor.NInt(kk), refcbor.NArr(refcbor.NBstr([]byte{0}))), refcbor.NMap(refcbor.NInt(kk), refcbor.NMap(refcbor.NInt(kk), refcbor.NNull())), refcbor.NMap(refcbor.NInt(kk), refcbor.NInt(1)))
+		}
+		labels := []int64{258, 259, 260, 256, 257, 261, -1, -65537, 262, 263, 264, 265, 266, 267, 268, 269, 270, 390, 391, 392, 393, 394, 395, 396, 397, 398, 399, 400}
 		for l := int64(0); l <= 40; l++ {
 			labels = append(labels, l)
 		}
